@@ -62,6 +62,17 @@ pub fn payload(c: &Case) -> Vec<u8> {
         let bs = block_size(c.format);
         for b in 0..n / bs {
             let r = util::splitmix64(c.seed ^ (b as u64) << 20);
+            // one block in sixteen is degenerate as a whole: every byte 0x00 (flat black areas compress to exactly
+            // this), every byte 0xFF, or one repeated byte - still an ordinary block to decode
+            if (r >> 40) % 16 == 0 {
+                let fill = match (r >> 44) % 4 {
+                    0 | 1 => 0x00,
+                    2 => 0xFF,
+                    _ => (r >> 48) as u8,
+                };
+                p[b * bs..(b + 1) * bs].fill(fill);
+                continue;
+            }
             if (r & 0xff) as u8 >= c.tie_bias {
                 continue;
             }
@@ -427,7 +438,7 @@ fn pre(ctx: &Ctx) {
 pub fn property() -> Property {
     Property {
         id: "C13",
-        rule: "format in {B8G8R8A8, BC1, BC3, BC5}; width, height 1..64 (512 thorough) including non-multiples of 4; depth 1..8 (height rounded to a multiple of 4 when depth > 1); arbitrary attribute flags, mip field, LOD / surface offsets, 0..200 trailing bytes; random payload with endpoint ties / orderings forced on a random fraction of the blocks. Sweep part: for BC1/BC3/BC5 x 6 endpoint pairs x 3 orderings (>, =, <) x 16 pixel positions x every selector value (4 colour / 8 alpha). Oracle: own per-pixel evaluation from the format definition: BGRA->RGBA; RGB565 endpoints by bit replication (exact); interpolated entries accepted in [floor, ceil] of the exact rational (2a+b)/3, (a+b)/2, ((8-k)a+(k-1)b)/7, ((6-k)a+(k-1)b)/5, and per image and denominator one rounding rule (down, nearest, up) must explain every non-integral interpolant; BC1 black entry RGB = 0 with unconstrained alpha; BC3 = alpha block over BC1 colour; BC5 = R, G from the two blocks, B = 0, A = 255; rgba.len() = 4wh d; 3-D iff attribute bit 0x1000000. Non-trivial: BCn image with a partial edge block, or depth > 1; distinct by hash of the file.",
+        rule: "format in {B8G8R8A8, BC1, BC3, BC5}; width, height 1..64 (512 thorough) including non-multiples of 4; depth 1..8 (height rounded to a multiple of 4 when depth > 1); arbitrary attribute flags, mip field, LOD / surface offsets, 0..200 trailing bytes; random payload with endpoint ties / orderings forced on a random fraction of the blocks and one block in sixteen degenerate as a whole (all 0x00, all 0xFF, one repeated byte). Sweep part: for BC1/BC3/BC5 x 6 endpoint pairs x 3 orderings (>, =, <) x 16 pixel positions x every selector value (4 colour / 8 alpha). Oracle: own per-pixel evaluation from the format definition: BGRA->RGBA; RGB565 endpoints by bit replication (exact); interpolated entries accepted in [floor, ceil] of the exact rational (2a+b)/3, (a+b)/2, ((8-k)a+(k-1)b)/7, ((6-k)a+(k-1)b)/5, and per image and denominator one rounding rule (down, nearest, up) must explain every non-integral interpolant; BC1 black entry RGB = 0 with unconstrained alpha; BC3 = alpha block over BC1 colour; BC5 = R, G from the two blocks, B = 0, A = 255; rgba.len() = 4wh d; 3-D iff attribute bit 0x1000000. Non-trivial: BCn image with a partial edge block, or depth > 1; distinct by hash of the file.",
         assumptions: &["which rounding rule a decoder uses for interpolants is not asserted (down, nearest and up are all accepted), only that it uses one rule per denominator within an image", "BC3 colour selectors 2/3 when c0 <= c1: the four-colour reading (Direct3D) and the BC1 reading (three colours + black) are both accepted, one per image", "oracle validated on hand-computed blocks at start-up"],
         pre: Some(pre),
         post: None,
